@@ -10,7 +10,9 @@ Line protocol for K_C16 (one input line → one output line).
   `loginbreak pre|<j> writefail|stop|srveof|close [<reason>]`   (a login interrupted before the reply / at burst write j)
   `lossheld <reason>` `release` `connect` `lossrec <reason>`    (lossrec = loss; connect; login — a listener of the
                                                                   application reconnects inside the CLOSED event)
-      → `att=… conn=… closed=… login=… init=… destr=… res=… exec=… fail=… inv=… frames=… | c=… s=… tasks=… tracked=… u=… r=… p=… open=…`
+  `parent <name> <level> <root>` `plevel <level>` `proot <root>` `ploss` `child` `closs`   (the distributed position)
+  `rescan <dirs> <files>`                                       (the application scans the shares again)
+      → `att=… conn=… closed=… login=… init=… destr=… res=… exec=… fail=… inv=… frames=… | c=… s=… tasks=… tracked=… u=… r=… p=… open=… par=… kids=… told=…`
   unknown line → `error`
 -/
 open AioslskVerif.Session
@@ -61,6 +63,14 @@ def siteStr : Site → String
   | .initDownload => "init-download" | .userMgmt => "user-mgmt" | .trackRetry => "track-retry"
   | .tracking => "tracking"
 
+def parStr : Option Parent → String
+  | none => "-"
+  | some p => s!"{p.name}/{p.root}/{p.level}"
+
+def toldStr : Option (Nat × String × Bool) → String
+  | none => "-"
+  | some (l, r, b) => s!"{l}/{r}/{b01 b}"
+
 def countObs (p : Obs → Bool) (o : List Obs) : Nat := (o.filter p).length
 
 def summary (c : Config) (showRes : Bool) (st : State) (o : List Obs) : String :=
@@ -83,7 +93,8 @@ def summary (c : Config) (showRes : Bool) (st : State) (o : List Obs) : String :
   let tracked := ",".intercalate (sortStrs st.tracked)
   s!"att={att} conn={conn} closed={closed} login={login} init={ini} destr={destr} res={res} exec={exec} " ++
   s!"fail={fail} inv={inv} frames={frames} | c={connStr st.conn} s={b01 st.session} tasks={tasks} " ++
-  s!"tracked={tracked} u={b01 st.users} r={b01 st.rooms} p={b01 st.params} open={openSockets st}"
+  s!"tracked={tracked} u={b01 st.users} r={b01 st.rooms} p={b01 st.params} open={openSockets st} " ++
+  s!"par={parStr st.parent} kids={st.children} told={toldStr st.told}"
 
 def parseList (s : String) : List String := if s == "-" then [] else s.splitOn ","
 
@@ -145,6 +156,13 @@ def parseOps (_c : Config) (toks : List String) : Option (List Op) :=
   | ["lossheld", r] => (parseReason r).map fun r => [.lossHeld r]
   | ["release"] => some [.release]
   | ["connect"] => some [.connect]
+  | ["parent", name, level, root] => level.toNat?.map fun l => [.parentAdopt name root l]
+  | ["plevel", level] => level.toNat?.map fun l => [.parentLevel l]
+  | ["proot", root] => some [.parentRoot root]
+  | ["ploss"] => some [.parentLoss]
+  | ["child"] => some [.childJoin]
+  | ["closs"] => some [.childLoss]
+  | ["rescan", d, f] => d.toNat?.bind fun d => f.toNat?.map fun f => [.rescan d f]
   | ["lossrec", r] => (parseReason r).map fun r => [.loss r, .connect, .login]
   | ["exec"] => some [.exec]
   | ["populate"] => some [.populate]
